@@ -160,7 +160,8 @@ def handler : Driver.Handler := fun c i => do
   let what := ((Driver.getObj c "neutral").toOption.bind (fun n => (n.getObjValAs? String "what").toOption)).getD ""
   let f1 := !bad.isEmpty && what == "unique" && neutralOk && subsetOf bad ["prod", "sql", "only:GroupKeyReduction", "only:EagerAggregation"]
     && (firedRules.contains "only:GroupKeyReduction" || firedRules.contains "only:EagerAggregation")
-  let f2 := !bad.isEmpty && what == "rename" && neutralOk && subsetOf bad ["prod", "sql", "only:PackedJoinKeys", "only:PackedGroupKeys", "only:EagerAggregation"]
+  let f2 := !bad.isEmpty && what == "rename" && neutralOk && subsetOf bad ["prod", "sql", "only:PackedJoinKeys", "only:EagerAggregation"]
+    && bad.contains "only:PackedJoinKeys"
   -- C03-F2, second face: a key column that exists in several tables is bounded with ANOTHER table's statistics when
   -- its own table has none (files written without statistics)
   let caseTables := ((c.getObjValAs? (Array Json) "tables").toOption.getD #[]).toList
@@ -174,9 +175,12 @@ def handler : Driver.Handler := fun c i => do
     | some (onL, onR) => (onL ++ onR).filterMap colName
     | none => []
   let f2b := !bad.isEmpty && subsetOf bad ["prod", "sql", "only:PackedJoinKeys"] && firedPj && keyNames.any borrowed
+  -- C03-F5: the same by-name pattern in PackedGroupKeys (a computed group key re-using a base column's name)
+  let f5 := !bad.isEmpty && what == "rename" && neutralOk && subsetOf bad ["prod", "sql", "only:PackedGroupKeys"]
+    && firedRules.contains "only:PackedGroupKeys"
   let f4 := !bad.isEmpty && subsetOf bad ["prod", "sql", "only:EagerAggregation"] && firedRules.contains "only:EagerAggregation"
     && ((planOf "only:EagerAggregation").map hasFloatCountInIntSum).getD false
-  let attr : Option String := if f1 then some "C03-F1" else if f2 || f2b then some "C03-F2" else if f4 then some "C03-F4" else none
+  let attr : Option String := if f1 then some "C03-F1" else if f2 || f2b then some "C03-F2" else if f5 then some "C03-F5" else if f4 then some "C03-F4" else none
   let model := Json.mkObj [("bad", Json.arr (bad.map Json.str).toArray), ("fired", Json.arr (firedRules.map Json.str).toArray),
     ("k_notes", Json.arr (kNotes.map Json.str).toArray), ("neutral_ok", Json.bool neutralOk)]
   pure { model := model, k := kSql && kGate, oracle := oracle, nt := !firedRules.isEmpty, attr := attr,
